@@ -105,6 +105,11 @@ def run_case(case, ctx):
                           src == "DISK",
                           f"{cfg_str(cfg)}: period checkpoint loaded by "
                           f"{a}, expected from DISK")
+    if ex is not None:
+        ex.ck("C13", "stream_completes", res.completed,
+              f"{cfg_str(cfg)} (late={case.get('late', 0)}, protocol="
+              f"{case.get('protocol')}): the stream did not run to the end "
+              f"of {case.get('passes')} adjoint passes: {res.error!r}")
     out = S.result_of(res, case, nt)
     if nt:
         out["sample"] = S.sample_of(res, case, 12)
